@@ -43,13 +43,13 @@ CONFIG = {'gen': ['SmbCommands'],
                'last read without advance) is proved the same way: mirror_loops_roundtrip, mirror_loops_reencode (codec laws on the '
                "element types too; consistent asks list elements to be fixed points of their Marshal; receiverFits: the receiver's fixed "
                "arrays have the sender's length — nothing is asked about optional fields any more: optional_stale_reset, the former "
-               'optional_stale_counterexample), smb_loops_roundtrip / smb_loops_reencode for the 109 regenerated MirrorLoops commands, all '
+               'optional_stale_counterexample), smb_loops_roundtrip / smb_loops_reencode for the 110 regenerated MirrorLoops commands, all '
                '16 AndX commands among them (loop_mirror_commands: LockAndReadResponse, LockingAndxRequest, OpenAndxRequest, '
-               'OpenAndxResponse, QueryInformationResponse, ReadRawRequest, SessionSetupAndxRequest, SessionSetupAndxResponse, '
+               'OpenAndxResponse, QueryInformationResponse, ReadRawRequest, RenameRequest — a nested read through a window of the type\'s fixed size whose error and count are dropped, offset moved by the window; rename_request_unchecked_decode_total: that decode cannot fail —, SessionSetupAndxRequest, SessionSetupAndxResponse, '
                'TransactionRequest, WriteAndCloseRequest, WriteAndxRequest, WriteMpxRequest, WriteRawRequest; mirror_loops_extends; '
-               'mirror_loops_types_lawful). For the 6 commands outside (non_mirror_loops_commands: FindResponse / FindUniqueResponse with '
+               'mirror_loops_types_lawful). For the 5 commands outside (non_mirror_loops_commands: FindResponse / FindUniqueResponse with '
                'the recorded 43-byte window, NegotiateRequest — Dialects reads to the end of its input —, NegotiateResponse — '
-               'null-terminated strings —, RenameRequest — unchecked decode —, WriteRequest) the round trip is decided by the '
+               'null-terminated strings —, WriteRequest) the round trip is decided by the '
                'correspondence runs only. slot_locality reads the layout through layoutZ (literal terminator bytes in the data block '
                'passed over, a range loop over an integer array one slot of variable width), 224 command/field pairs.',
  'level_note': 'Trusted: Lean kernel; axioms propext, Classical.choice, Quot.sound; the extractor and the IR semantics are tied to the Go '
